@@ -166,3 +166,31 @@ Definition isum (r : bool) : list N := [bool_code r].
 Definition lsum (r : lres) : list N := [bool_code (l_ok r); l_merr r].
 Definition vsum (r : vres) : list N := [bool_code (v_ok r); v_errors r].
 Definition rsum (r : rres) : list N := [bool_code (r_ok r); r_merr r].
+
+(* a run under an explicit fault list, in the shape run_rules returns *)
+Definition run_phi (pre : bytes -> N) {R} (p : prog R) (a : arch) (phi : list fault)
+  : list (op * reply) * arch * outcome R * list fault :=
+  (run pre p a phi, phi).
+Definition crash_at (k : N) (empty : bool) : list fault :=
+  repeat NoFault (N.to_nat k) ++ [if empty then CrashEmpty else Crash].
+
+(* direct Transport calls and state surgery, for the transport-contract cases *)
+Inductive tstep := TOp (o : op) | TTruncate (f : fpath).
+Fixpoint run_tsteps (pre : bytes -> N) (a : arch) (l : list tstep) : list reply * arch :=
+  match l with
+  | [] => ([], a)
+  | TOp o :: l' =>
+      let (a', r) := exec pre a o NoFault in
+      let (rs, af) := run_tsteps pre a' l' in (r :: rs, af)
+  | TTruncate f :: l' =>
+      run_tsteps pre (match get a f with
+                      | Some _ => {| dirs := dirs a; files := set_file f Empty (files a) |}
+                      | None => a
+                      end) l'
+  end.
+Fixpoint replies_diff (a b : list reply) (i : N) : option N :=
+  match a, b with
+  | [], [] => None
+  | x :: a', y :: b' => if reply_eqb x y then replies_diff a' b' (i + 1) else Some i
+  | _, _ => Some i
+  end.
